@@ -2,8 +2,8 @@ PROP = dict(
     harness="c17", level="exploration", exhaustive_capable=True,
     # The deterministic enumeration (vh_enum: ~4.5k sweep items quick, ~30k thorough, item i -> worker i mod workers) runs before
     # the generated cases and does not count against `cases`; `cases` is only the random tail (explicit values / random blocks).
-    quick=dict(cases=8000, max_size=100, workers=8),
-    thorough=dict(cases=160000, max_size=100, workers=16),
+    quick=dict(cases=96000, max_size=100, workers=16),
+    thorough=dict(cases=640000, max_size=100, workers=16),
     rule=("(a) every OffsetFormat the back ends construct (x86 rel8/rel32/abs32 with leading+trailing bytes, data 1/2/4/8 signed and unsigned, "
           "AArch64 imm26/imm19/imm14 x4, ADR, ADRP) plus the Thumb/A32/T16 formats of fixup.h: for every offset the target word is pre-filled with "
           "hash-derived bits (field zero), write_offset + encode_offset32/64 are called and an independent architecture decoder must recover "
